@@ -1,6 +1,7 @@
 import QuantemModel.Core.Proto
 import QuantemModel.Model.Vector
 import QuantemModel.Model.VectorView
+import QuantemModel.Model.VectorFront
 open Lean QuantemModel QuantemModel.Proto QuantemModel.Vector
 
 /-!
@@ -96,6 +97,38 @@ def itemOfJson (st : St) (j : Json) : Except String DItem := do
     match j.getObjVal? "lit1d" with
     | .ok _ => pure .lit1d
     | .error _ => pure (.val (← valOfJson st j))
+
+/-! argument forms of `from_shape` (Model/VectorFront.lean) -/
+
+def dimArgOfJson (j : Json) : Except String DimArg :=
+  match j.getObjVal? "i" with
+  | .ok v => do pure (.int (← v.getInt?))
+  | .error _ => match j.getObjVal? "b" with
+    | .ok v => do pure (.bool (← v.getBool?))
+    | .error _ => pure .other
+
+def shapeArgOfJson (j : Json) : Except String ShapeArg :=
+  match j.getObjVal? "tuple" with
+  | .ok v => do pure (.tuple (← (← v.getArr?).toList.mapM dimArgOfJson))
+  | .error _ => pure .notTuple
+
+def numArgOfJson (j : Json) : Except String (Option NumArg) :=
+  match j with
+  | .null => pure none
+  | _ => match j.getObjVal? "i" with
+    | .ok v => do pure (some (.int (← v.getInt?)))
+    | .error _ => match j.getObjVal? "b" with
+      | .ok v => do pure (some (.bool (← v.getBool?)))
+      | .error _ => match j.getObjVal? "like" with
+        | .ok v => do pure (some (.intLike (← v.getInt?)))
+        | .error _ => pure (some .other)
+
+def seqArgOfJson (j : Json) : Except String (Option SeqArg) :=
+  match j with
+  | .null => pure none
+  | _ => match j.getObjVal? "seq" with
+    | .ok v => do pure (some (.seq (← (← v.getArr?).toList.mapM (·.getStr?))))
+    | .error _ => pure (some .notSeq)
 
 def errName : Err → String
   | .valueError => "ValueError" | .typeError => "TypeError" | .indexError => "IndexError"
@@ -258,6 +291,12 @@ def step (st : St) (j : Json) : St × Json :=
             ("fields", Json.arr (v.fields.map Json.str).toArray), ("units", Json.arr (v.units.map Json.str).toArray)]
         | none => Json.null
       pure ({ st with vs := { st.vs with s := s' } }, Json.mkObj [("r", resJson r), ("vec", view)]) else
+    if op == "from_shape_front" then
+      -- argument forms in front of `from_shape` (type tests of the validators)
+      let (s', r) := opFromShapeFront st.s (← shapeArgOfJson (← field j "shape")) (← numArgOfJson (fieldD j "num_fields" .null))
+        (← seqArgOfJson (fieldD j "fields" .null)) (← seqArgOfJson (fieldD j "units" .null))
+      let st' : St := { st with vs := { st.vs with s := s' } }
+      pure (st', Json.mkObj [("r", resJson r), ("obs", obs st')]) else
     let o ← vopOfJson st j
     let (vs', vr) := Vector.vstep st.vs o
     let (pool', rj) := match vr with
